@@ -10,7 +10,7 @@ from .common import call
 
 PROP = "C15"
 LEVEL = "exploration"
-CASES = {"quick": 500, "thorough": 25000}
+CASES = {"quick": 500, "thorough": 200000}
 SHARDS = {"quick": 8, "thorough": 16}
 ANCHORS = [
     "api.py:_split", "api.py:ReferenceTuple.from_curie", "api.py:ReferenceTuple.curie", "api.py:Reference._parse_from_string",
